@@ -20,6 +20,12 @@ pub fn window(open: bool) {
     with_state(|st, _| st.window_open = open);
 }
 
+/// Offers spurious condition-variable wake-ups (a wait returning without notification or
+/// timeout, which std permits) as 1-cost deviations while the window is open.
+pub fn spurious(on: bool) {
+    with_state(|st, _| st.spurious = on);
+}
+
 pub fn note(s: String) {
     with_state(|st, _| st.notes.push(s));
 }
